@@ -85,9 +85,10 @@ ITEM_CHOICES = [0, 1, 2, 3, 4, 5, 6, 7, 8, 10, 12]
 
 def build_plan(choice: Choice, tier: str, family: str):
     """family: 'single' (C01, C02), 'multi' (C03), 'lifecycle' (C04)"""
-    thorough = tier == "thorough"
     p = {"family": family}
     d = choice.draw
+    # an eighth of the quick runs use the larger sizes of the thorough tier (more workers, calls, items)
+    thorough = tier == "thorough" or d(8, "large.sizes") == 7
     if family == "single":
         p["factory"] = d(3, "factory") == 2
     else:
